@@ -78,7 +78,21 @@ func NewSecureAsk[Pub any](m map[string]DynSecureAskSwarm[Pub]) p2p.SecureAskSwa
 			logctx.Errorln(ctx, err)
 		}
 	}()
-	return p2p.ComposeSecureAskSwarm[Addr, Pub](ms, ma, msec)
+	return closeAsks[Pub]{
+		SecureAskSwarm: p2p.ComposeSecureAskSwarm[Addr, Pub](ms, ma, msec),
+		ma:             ma,
+	}
+}
+
+// closeAsks closes the ask hub together with the swarm, so that ServeAsk returns after Close.
+type closeAsks[Pub any] struct {
+	p2p.SecureAskSwarm[Addr, Pub]
+	ma *multiAsker
+}
+
+func (c closeAsks[Pub]) Close() error {
+	c.ma.asks.CloseWithError(p2p.ErrClosed)
+	return c.SecureAskSwarm.Close()
 }
 
 type multiSwarm struct {
